@@ -116,6 +116,7 @@ def run(rep):
 
 def random_trace(rep, zd, n):
     rng = random.Random(rep.seed * 7577 + 11)
+    _n = n
     zones = zd["all"]
     items = []
     for i in range(n):
@@ -150,3 +151,81 @@ def random_trace(rep, zd, n):
         feat["deftz"] = defz["name"]
         items.append({"line": line, "text": text, "cfg": cfg_for(defz), "lang": "en", "variant": "random", "feat": feat, "class_fn": cls})
     forms.trace(rep, items, "c11.rand")
+    zone_histories(rep, zd, rng, max(20, n // 60))
+
+
+def zone_histories(rep, zd, rng, nhist):
+    """the default zone is state of the calculator: histories of set_timezone calls (table names in any letter case, GMT forms, names
+    that denote no zone) interleaved with evaluations of times that name no zone; validated by TLC (SetTimezone action)"""
+    import re
+    import proj
+    from tracev import reset_event, validate_trace
+    from vlib import run_harness_stable_day
+    table = {z["name"]: z["off"] for z in render.usable_zones()}
+    allnames = dict(render.config_json()["timezones"])
+    cases, metas = [], []
+    for hi in range(nhist):
+        steps, evs = [], []
+        for k in range(30):
+            if rng.random() < 0.35:
+                x = rng.random()
+                if x < 0.5:
+                    n = rng.choice(sorted(table))
+                    sp = n            # as the table spells it: whether the API argument is case-insensitive is not stated
+                    w = {"kind": "table", "name": n}
+                elif x < 0.8:
+                    sign, h, m = rng.choice([1, -1]), rng.randint(0, 14), rng.choice([0, 0, 30, 45, 15])
+                    sp = "GMT%s%d%s" % ("+" if sign > 0 else "-", h, (":%02d" % m) if m or rng.random() < 0.3 else "")
+                    w = {"kind": "gmt", "name": sp, "sign": sign, "h": h, "m": m}
+                else:
+                    sp = rng.choice(["XYZ", "Q", "12", "", "EUROPE", "Moon", "??"])
+                    w = {"kind": "none"}
+                    if sp.upper() in allnames:
+                        continue
+                steps.append({"op": "set_tz", "v": sp})
+                evs.append({"ev": "set_tz", "w": w})
+            else:
+                wall = rng.randrange(0, 1440) * 60
+                if rng.random() < 0.5:
+                    line = {"form": "time_lit", "w": wall, "z": dict(NOZONE)}
+                else:
+                    line = {"form": "time_conv", "w": wall, "z": dict(NOZONE), "z2": rng.choice(zd["all"])}
+                rs = renderings(line, k, False)
+                steps.append({"op": "execute", "lang": "en", "text": rs[0][1]})
+                evs.append({"ev": "execute", "lang": "en", "lines": [line]})
+        cases.append({"id": "zh%d" % hi, "cfg": render.cfg_with(), "steps": steps, "fresh": True})
+        metas.append(evs)
+    obs = run_harness_stable_day(cases, "c11.hist", jobs=8)
+    events, index = [], []
+    for case, evs, o in zip(cases, metas, obs):
+        events.append(reset_event(case["cfg"], o.get("day0", 0), extra={"zones": allnames}))
+        index.append(None)
+        steps = o.get("steps") or []
+        for k, e in enumerate(evs):
+            st = steps[k] if k < len(steps) else o
+            ev = dict(e)
+            if e["ev"] == "set_tz":
+                ok = st.get("outcome") == "returned"
+                ev["ret"] = ("true" if st.get("ret") else "false") if ok else "panic"
+                ev["name"] = (st.get("tz") or {}).get("name", "")
+                ev["off"] = (st.get("tz") or {}).get("off", 0)
+            else:
+                ss = proj.slots_of_step(st)
+                if ss is None:
+                    ev["status"], slots = True, [{"k": st.get("outcome", "panic")}]
+                else:
+                    ev["status"], slots = ss
+                    for sl in slots:
+                        if sl.get("k") == "time":
+                            sl["pr"] = proj.time_printed(sl.get("out", ""))
+                ev["obs"] = [proj.trace_slot(sl) for sl in slots]
+            events.append(ev)
+            index.append((case, k, st))
+            rep.case([case["id"], k], True)
+    bad = validate_trace(rep, events, "c11.hist")
+    for b in bad:
+        case, k, st = index[b["l"] - 1]
+        rep.violation({"check": "trace", "form": "history", "case": case, "step": k, "expected": b["expected"], "observed": st,
+                       "feat": {"form": "history", "what": case["steps"][k]["op"], "failure": "wrong"}, "class": "zone-history|%s" % case["steps"][k]["op"]})
+    if cases:
+        rep.sample({"zone_history": cases[0]["steps"][:8]})
